@@ -13,6 +13,7 @@ import (
 	dbm "github.com/tendermint/tm-db"
 
 	"github.com/tendermint/tendermint/evidence"
+	sm "github.com/tendermint/tendermint/state"
 	tmproto "github.com/tendermint/tendermint/proto/tendermint/types"
 	"github.com/tendermint/tendermint/types"
 
@@ -283,4 +284,79 @@ func TestScenarioCommitNeverPending(t *testing.T) {
 		l, _ := f.pool.PendingEvidence(-1)
 		t.Fatalf("the committed offence became pending again after consensus reported its votes (pending=%d size=%d)", len(l), f.pool.Size())
 	}
+}
+
+// Vote.ValidatorIndex is hashed but not signed: a copy of committed duplicate-vote evidence with another index is
+// "new" evidence of the same two votes — admitted, accepted in a second block, punished again.
+func TestRegressValidatorIndexMalleability(t *testing.T) {
+	const name = "TestRegressValidatorIndexMalleability"
+	f := newFixture(t, 3, 10, time.Hour)
+	ev, err := f.c.DuplicateVote(2, tmproto.PrecommitType, 2, 0, lib.ForgeBlockID("a"), lib.ForgeBlockID("b"))
+	if err != nil {
+		t.Fatal(err)
+	}
+	if err := f.pool.CheckEvidence(types.EvidenceList{ev}); err != nil {
+		t.Fatalf("genuine evidence rejected: %v", err)
+	}
+	if err := f.c.Advance(&lib.HeightPlan{Evidence: types.EvidenceList{ev}}); err != nil { // committed in block 4
+		t.Fatal(err)
+	}
+	again := cloneDVE(ev)
+	again.VoteA.ValidatorIndex += 7
+	again.VoteB.ValidatorIndex += 7
+	if err := again.ValidateBasic(); err != nil {
+		t.Fatalf("VERIF-INFRA: %v", err)
+	}
+	errA := f.pool.AddEvidence(again)
+	pend, _ := f.pool.PendingEvidence(-1)
+	errC := f.pool.CheckEvidence(types.EvidenceList{again})
+	if len(pend) != 0 || errC == nil {
+		report(t, name, kfIndex, "the two votes committed as evidence in block 4, re-offered with another ValidatorIndex: AddEvidence err="+short(errA)+
+			", pending="+itoa(len(pend))+"; CheckEvidence (a second block) err="+short(errC))
+		return
+	}
+	lib.Case(name, lib.FP(1), true)
+}
+
+// The node crashes after the block (carrying evidence E, pending since the block was validated) was saved and before
+// ApplyBlock reached Pool.Update. The handshake replays the block with sm.EmptyEvidencePool, the real pool is opened
+// afterwards: E is still pending and carries no committed marker -> proposed again, accepted in a second block.
+func TestRegressUpdateLostInCrash(t *testing.T) {
+	const name = "TestRegressUpdateLostInCrash"
+	p := types.DefaultConsensusParams()
+	p.Evidence.MaxAgeNumBlocks, p.Evidence.MaxAgeDuration = 10, time.Hour
+	c, err := lib.NewChain(lib.ChainSpec{Keys: []int{0, 1, 2, 3}, Powers: []int64{10, 10, 10, 10}, Params: p})
+	if err != nil {
+		t.Fatalf("VERIF-INFRA: %v", err)
+	}
+	defer c.Close()
+	db := dbm.NewMemDB()
+	pool, _ := evidence.NewPool(db, c.StateStore, c.BlockStore)
+	c.SetEvidencePool(pool)
+	for i := 0; i < 3; i++ {
+		if err := c.Advance(nil); err != nil {
+			t.Fatal(err)
+		}
+	}
+	ev, err := c.DuplicateVote(1, tmproto.PrevoteType, 2, 0, lib.ForgeBlockID("a"), lib.ForgeBlockID("b"))
+	if err != nil {
+		t.Fatal(err)
+	}
+	if err := pool.CheckEvidence(types.EvidenceList{ev}); err != nil { // prevote: block 4 carries ev
+		t.Fatal(err)
+	}
+	c.SetEvidencePool(sm.EmptyEvidencePool{}) // crash; handshake replay of block 4
+	if err := c.Advance(&lib.HeightPlan{Evidence: types.EvidenceList{ev}}); err != nil {
+		t.Fatal(err)
+	}
+	pool, _ = evidence.NewPool(db, c.StateStore, c.BlockStore) // node start continues
+	c.SetEvidencePool(pool)
+	pend, _ := pool.PendingEvidence(-1)
+	errC := pool.CheckEvidence(types.EvidenceList{ev})
+	if len(pend) != 0 || errC == nil {
+		report(t, name, kfCrash, "evidence committed in block 4 (replayed by the handshake after a crash): still pending="+itoa(len(pend))+
+			", accepted in another block: CheckEvidence err="+short(errC))
+		return
+	}
+	lib.Case(name, lib.FP(1), true)
 }
